@@ -201,11 +201,16 @@ pub fn run(seed: u64, n: usize, out: &mut Out) {
                     let _ = fs.add_filter(l, Default::default());
                 }
                 Ok(Err(_)) => {}
-                Err(_) => parse_panic = true,
+                Err(p) => {
+                    // the rule set cannot even be built: the conversion of "any rule set" starts with its lines (the location
+                    // helper of the cosmetic parser is also what the cosmetic translation reads the raw line with)
+                    parse_panic = true;
+                    out.fail("rule-set-construction-panicked", None, json!({"line": l, "panic": p}));
+                }
             }
         }
         if parse_panic {
-            continue; // C11's business
+            continue;
         }
         let desc = json!({"rules": lines});
         let all_ascii = lines.iter().all(|l| l.is_ascii());
